@@ -1034,10 +1034,10 @@ func main() {
 	r.Samples = []string{}
 	r.Rule = "one script = one client session in a child process against a hostile peer: 0..25 steps (start call / reply right-type, Rerror or wrong type / stray reply with an unissued, repeated, NOTAG or abandoned tag / cancel one call's context), then with 0..16 calls pending one failure (close, ctx, session deadline, garbage, truncated frame, undecodable type, frame > msize, size field 0..6, inconsistent body, stat sizes 0xFFFE/0xFFFF, counts far beyond the input) and 1..3 later calls. Non-trivial when the script has a stray reply, a wrong-typed reply, or a failure with >=1 call pending. Distinct by canonical event text."
 	rng := prng.New(r.Seed)
-	n := r.N(300, 8000)
+	n := r.N(300, 6000)
 	if *light {
 		rng = prng.New(r.Seed + 4242)
-		n = r.N(30, 800)
+		n = r.N(30, 600)
 	}
 	scripts := make([]script, n)
 	everyDL := n / r.N(8, 60) // this many scripts begin with a call under a context deadline that is then let pass (~0.6 s each)
